@@ -17,7 +17,7 @@ def pick_W(rng, n):
     return rng.choice([1, 2, 3, 4, 8, 16, n + 3])
 
 
-def execute(desc, pre=None, post=None, progress=None, record_args=True, track_results=False, ir=None, extra_run_kwargs=None):
+def execute(desc, pre=None, post=None, progress=None, record_args=True, track_results=False, ir=None, extra_run_kwargs=None, before_run=None):
     """desc keys: seed, n, family, W, sched, perturb, rich, max_errors, retry, fail (list of skeleton idx -> kind)."""
     import uberjob
 
@@ -70,6 +70,8 @@ def execute(desc, pre=None, post=None, progress=None, record_args=True, track_re
     R.result, R.exc = None, None
     R.fail = fail
     R.kw = kw
+    if before_run is not None:
+        before_run(R)
     before = rec.thread_census()
     P = pert.make(seed, desc.get("perturb", "none"))
     with P:
